@@ -227,6 +227,113 @@ pub fn catch<T>(f: impl FnOnce() -> T) -> Result<T, String> {
 }
 
 // ------------------------------------------------------------------------------------------------
+// Hang monitor for in-process evaluations
+//
+// A library call that never returns would make an in-process check hang instead of reporting.
+// Every shard registers the case it is evaluating in a slot; a monitor thread reports a case whose
+// evaluation has not returned within HANG_LIMIT as a violation (with a replay file) and ends the
+// process with exit status 1.  The limit is several orders of magnitude above the cost of any
+// case (microseconds to a few seconds for 16 MiB payloads).
+
+pub const HANG_LIMIT_S: u64 = 300;
+
+pub struct HangSlot {
+    start_ms: std::sync::atomic::AtomicU64,
+    ptr: std::sync::atomic::AtomicPtr<()>,
+    ser: fn(*const ()) -> String,
+    check: Mutex<String>,
+    lock: Mutex<()>,
+}
+
+use std::sync::Mutex;
+
+static SLOTS: Mutex<Vec<Arc<HangSlot>>> = Mutex::new(Vec::new());
+static HANG_CTX: Mutex<Option<(PathBuf, String, u64, String)>> = Mutex::new(None);
+static MONITOR_STARTED: std::sync::atomic::AtomicBool = std::sync::atomic::AtomicBool::new(false);
+
+fn now_ms() -> u64 {
+    use std::time::{SystemTime, UNIX_EPOCH};
+    SystemTime::now().duration_since(UNIX_EPOCH).map(|d| d.as_millis() as u64).unwrap_or(1).max(1)
+}
+
+fn ser_case<C: Serialize>(p: *const ()) -> String {
+    // SAFETY: the pointer was stored by `watched` from a live `&C`; the evaluating thread cannot
+    // clear the slot (and afterwards drop the case) while the monitor holds the slot's lock
+    let c: &C = unsafe { &*(p as *const C) };
+    serde_json::to_string(c).unwrap_or_else(|_| "null".to_string())
+}
+
+pub fn new_hang_slot<C: Serialize>(check: &str) -> Arc<HangSlot> {
+    let slot = Arc::new(HangSlot {
+        start_ms: std::sync::atomic::AtomicU64::new(0),
+        ptr: std::sync::atomic::AtomicPtr::new(std::ptr::null_mut()),
+        ser: ser_case::<C>,
+        check: Mutex::new(check.to_string()),
+        lock: Mutex::new(()),
+    });
+    if let Ok(mut v) = SLOTS.lock() {
+        v.push(slot.clone());
+    }
+    slot
+}
+
+/// Runs `f` (the evaluation of `case`) while the case is registered with the hang monitor.
+pub fn watched<C, R>(slot: &HangSlot, case: &C, f: impl FnOnce() -> R) -> R {
+    use std::sync::atomic::Ordering;
+    slot.ptr.store(case as *const C as *mut (), Ordering::SeqCst);
+    slot.start_ms.store(now_ms(), Ordering::SeqCst);
+    let r = f();
+    // clearing synchronises with a monitor that may be serialising the case right now
+    let _g = slot.lock.lock();
+    slot.start_ms.store(0, Ordering::SeqCst);
+    r
+}
+
+pub fn start_hang_monitor(ctx: &Ctx, prop: &str) {
+    use std::sync::atomic::Ordering;
+    if let Ok(mut c) = HANG_CTX.lock() {
+        *c = Some((ctx.root.clone(), prop.to_string(), ctx.seed, ctx.tier.name().to_string()));
+    }
+    if MONITOR_STARTED.swap(true, Ordering::SeqCst) {
+        return;
+    }
+    let limit_ms = std::env::var("VERIF_HANG_LIMIT_S").ok().and_then(|s| s.parse::<u64>().ok()).unwrap_or(HANG_LIMIT_S) * 1000;
+    std::thread::spawn(move || loop {
+        std::thread::sleep(std::time::Duration::from_millis(1000));
+        let slots: Vec<Arc<HangSlot>> = SLOTS.lock().map(|v| v.clone()).unwrap_or_default();
+        let now = now_ms();
+        for slot in slots {
+            let st = slot.start_ms.load(Ordering::SeqCst);
+            if st == 0 || now.saturating_sub(st) < limit_ms {
+                continue;
+            }
+            let g = slot.lock.lock();
+            if slot.start_ms.load(Ordering::SeqCst) != st {
+                continue; // finished meanwhile
+            }
+            let json = (slot.ser)(slot.ptr.load(Ordering::SeqCst) as *const ());
+            drop(g);
+            let check = slot.check.lock().map(|c| c.clone()).unwrap_or_default();
+            let (root, prop, seed, tier) = HANG_CTX.lock().ok().and_then(|c| c.clone()).unwrap_or((verif_root(), "?".to_string(), 0, "quick".to_string()));
+            let case: serde_json::Value = serde_json::from_str(&json).unwrap_or(serde_json::Value::Null);
+            let f = Failure {
+                check,
+                message: format!("the evaluation of this case has not returned after {} s: a library call hangs or loops (cases of this check take microseconds to seconds)", limit_ms / 1000),
+                case,
+                harness_error: false,
+            };
+            let fake = Ctx { tier: if tier == "thorough" { Tier::Thorough } else { Tier::Quick }, seed, threads: 1, root, scale: 1.0 };
+            let path = write_replay(&fake, &prop, &f);
+            println!("VIOLATION property={} replay={}", prop, path.display());
+            println!("  check={} {}", f.check, f.message);
+            use std::io::Write;
+            let _ = std::io::stdout().flush();
+            std::process::exit(1);
+        }
+    });
+}
+
+// ------------------------------------------------------------------------------------------------
 // Statistics
 
 #[derive(Default, Clone, Debug, Serialize)]
@@ -512,8 +619,9 @@ fn run_shard<C: CaseT>(
     let stats = RefCell::new(Stats::default());
     let failed = Cell::new(false);
     let first_msg: RefCell<Option<(String, bool)>> = RefCell::new(None);
+    let slot = new_hang_slot::<C>(name);
     let result = runner.run(&strategy, |case: C| {
-        let verdict = eval_guarded(eval, &case);
+        let verdict = watched(&slot, &case, || eval_guarded(eval, &case));
         let shrinking = failed.get();
         match verdict {
             Verdict::Pass(obs) => {
@@ -727,10 +835,11 @@ impl<C: CaseT> DynCheck for EnumCheck<C> {
                         .spawn_scoped(scope, move || {
                             let mut stats = Stats::default();
                             let mut failure = None;
+                            let slot = new_hang_slot::<C>(name);
                             let mut i = s;
                             while i < cases.len() {
                                 let case = &cases[i];
-                                match eval_guarded(&eval, case) {
+                                match watched(&slot, case, || eval_guarded(&eval, case)) {
                                     Verdict::Pass(obs) => stats.record(name, case, &obs, 3),
                                     Verdict::Known { sig, detail } if is_listed(known, prop, sig) => {
                                         stats.evaluations += 1;
@@ -880,6 +989,7 @@ pub fn write_replay(ctx: &Ctx, prop: &str, f: &Failure) -> PathBuf {
 pub fn run_property(ctx: &Ctx, spec: &PropSpec, only: Option<&str>) -> RunOutcome {
     let start = Instant::now();
     let known = load_known_findings(&ctx.root);
+    start_hang_monitor(ctx, spec.id);
     let mut stats = Stats::default();
     let mut failures: Vec<Failure> = Vec::new();
     for check in &spec.checks {
@@ -1026,7 +1136,26 @@ pub fn replay_file(specs: &[PropSpec], path: &std::path::Path) -> i32 {
                 continue;
             }
             std::env::set_var("VERIF_REPLAY_PROP", prop);
-            return match c.replay(doc["case"].clone()) {
+            // a saved case may be one that makes the library hang: evaluate it on a helper thread
+            let limit = std::env::var("VERIF_HANG_LIMIT_S").ok().and_then(|s| s.parse::<u64>().ok()).unwrap_or(HANG_LIMIT_S);
+            let (tx, rx) = std::sync::mpsc::channel();
+            let case_json = doc["case"].clone();
+            let outcome = std::thread::scope(|scope| {
+                scope.spawn(move || {
+                    let _ = tx.send(c.replay(case_json));
+                });
+                match rx.recv_timeout(std::time::Duration::from_secs(limit)) {
+                    Ok(r) => Some(r),
+                    Err(_) => {
+                        println!("VIOLATION property={} replay={}", prop, path.display());
+                        println!("  check={} the evaluation of this case has not returned after {} s: a library call hangs or loops", check, limit);
+                        use std::io::Write;
+                        let _ = std::io::stdout().flush();
+                        std::process::exit(1);
+                    }
+                }
+            });
+            return match outcome.unwrap() {
                 Ok(Verdict::Pass(_)) => {
                     println!("replay {}: property {} holds on this case", path.display(), prop);
                     0
